@@ -86,6 +86,12 @@ func runC10(env *Env, data map[string]any) *Outcome {
 		if model != "ok "+hx(got) {
 			o.Findings = append(o.Findings, Finding{Kind: "K", What: "K.C10.reflow: Reflower.Reflow differs from the model", Impl: short(got, 800), Model: short(unhx(strings.TrimPrefix(model, "ok ")), 800)})
 		}
+		if gd := gsDriver(env); gd != nil {
+			// the translated Go source of Reflow (Gen/GoFmt.lean) evaluated against the running code
+			if gm := gd.Ask("gs.reflow", fmt.Sprint(num(data, "width")), hx(text), arg); gm != "ok "+hx(got) {
+				o.Findings = append(o.Findings, Finding{Kind: "K", What: "K.gosrc.reflow: the Go source of Reflow as translated into Lean (Gen/GoFmt.lean) differs from the running code", Impl: short(got, 800), Model: short(gm, 800)})
+			}
+		}
 		// D: re-flowing only replaces blanks by line breaks (and adds prefixes): without prefixes, the words stay
 		if len(pf) == 0 && strings.Join(strings.Fields(got), " ") != strings.Join(strings.Fields(text), " ") {
 			o.Findings = append(o.Findings, Finding{Kind: "D", What: "re-flowing changes the words of the text", Impl: short(got, 800)})
